@@ -9,7 +9,8 @@ from vlib.harness import CheckBase, Verdict, VERIF
 
 FAULTS = ["flip-id", "flip-data", "flip-idmark", "flip-datamark", "flip-gap", "slip", "zero-run", "truncate",
           "kill-id-sync", "kill-data-sync", "kill-pair", "kill-pair", "deleted-damaged", "deleted-damaged",
-          "badcrc-damaged", "edge-all-tracks", "edge-all-tracks", "stray-cyl", "stray-cyl", "stray-head"]
+          "badcrc-damaged", "edge-all-tracks", "edge-all-tracks", "stray-cyl", "stray-cyl", "stray-head",
+          "one-data-bit", "one-data-bit", "one-data-bit"]
 
 
 @st.composite
@@ -38,6 +39,7 @@ class C06(CheckBase):
             "(every sector distinct) receives a drawn fault set of 1-5 faults: bit flips inside a chosen sector's ID "
             "field / data field / address marks / gap, 1-7-cell slips (insert or delete), zeroed runs, wiped sync "
             "runs, truncation of a track, records with valid CRCs whose ID names another cylinder or the other head; "
+            "exactly one flipped data bit inside a CRC-covered field (such a sector must not be readable at all); "
             "then dump-sector is run for EVERY (side, track, sector): it must fail or "
             "print exactly the bytes recorded under that address.  (2) decoder level (libFuzzer target fuzz_track, "
             "bit-granular custom mutator) with a brute-force reference that finds every CRC-valid ID and data field "
@@ -131,6 +133,15 @@ class C06(CheckBase):
                         faults.append(dict(f, kind="flip-data", track=t, side=sd, sector=edge))
             else:
                 faults.append(f)
+        # exactly one DATA cell inside a CRC-covered span (ID field or data field, the address mark included): applied
+        # first, while the field map is still exact.  A single wrong bit always fails CRC-16/CCITT, so such a sector
+        # must never be readable (recorded in must_fail unless another fault also aims at the same sector).
+        self.must_fail = set()
+        aimed = {}
+        for f in faults:
+            key = (f["track"], min(f["side"], case["nsides"] - 1), f["sector"])
+            aimed[key] = aimed.get(key, 0) + 1
+        faults.sort(key=lambda f: f["kind"] != "one-data-bit")
         for f in faults:
             t, sd = f["track"], min(f["side"], case["nsides"] - 1)
             c = cells[t][sd]
@@ -140,7 +151,24 @@ class C06(CheckBase):
             ids, ide = fm["id"]
             ds, de = fm["data"]
             k = f["kind"]
-            if k == "flip-id":
+            if k == "one-data-bit":
+                mfm = case["encoding"] == "MFM"
+                skip = 48 if mfm else 0                    # three A1 sync bytes precede the mark in MFM
+                which = f["bits"]                          # 1: ID field, 2: data field, 3: low bits of the ID mark
+                if which == 3:
+                    p = ids + skip + (15 if f["off"] % 2 else 13)        # data bit 0 / bit 1 of the mark byte
+                elif which == 1:
+                    nbytes = (ide - ids - skip) // 16
+                    p = ids + skip + 2 * (f["off"] % (nbytes * 8)) + 1
+                else:
+                    nbytes = (de - ds - skip) // 16
+                    p = ds + skip + 2 * (f["off"] % (nbytes * 8)) + 1
+                if 0 <= p < len(c):
+                    c[p] ^= 1
+                    hit_field = True
+                    if aimed[(t, sd, f["sector"])] == 1:
+                        self.must_fail.add((sd, t, f["sector"]))
+            elif k == "flip-id":
                 for i in range(f["bits"]):
                     p = ids + 16 + (f["off"] * (i + 1)) % max(1, ide - ids - 16)
                     if 0 <= p < len(c):
@@ -241,6 +269,11 @@ class C06(CheckBase):
                             if r.stdout:
                                 v.fail("C06/failed-with-output", "dump-sector failed but printed data", r.brief())
                             continue
+                        if (sd, t, s_) in self.must_fail:
+                            v.fail("C06/damaged-sector-read-as-good", "dump-sector %d %d %d succeeded although one data "
+                                   "bit inside a CRC-covered field of that sector was flipped (%s %s)"
+                                   % (sd, t, s_, case["kind"], case["encoding"]), r.brief())
+                            return v
                         lba = t * spt + s_
                         want = disc.render_dump(bytes(sides[sd][lba * 256:lba * 256 + 256]))
                         if r.stdout != want:
